@@ -8,7 +8,9 @@
 From Coq Require Import Reals Lra List.
 From D3 Require Import Base.Ops Base.Vec Base.RVec Base.RVec2 Spec.Convex Spec.Prims Model.DistPrim
   Proofs.DistBase Proofs.DistPoint Proofs.DistRect
-  Proofs.DistTriangle Proofs.DistRound Proofs.DistLine Proofs.DistPlane Proofs.DistPlaneHull.
+  Proofs.DistTriangle Proofs.DistRound Proofs.DistLine Proofs.DistPlane Proofs.DistPlaneHull
+  Model.Support Model.DistPrimComb Proofs.DistComb Proofs.DistCombOpt.
+Import ListNotations.
 Local Open Scope R_scope.
 (* [exists d c1 c2, f args = (d, c1, c2) /\ _]: name the components of the model's result *)
 Ltac ex3 := match goal with |- exists d c1 c2, ?e = _ /\ _ =>
@@ -217,67 +219,230 @@ Example C11_plane_to_plane_nonvacuous :
     cross (V 0 0 1 : V3R) (V 0 0 1) = vzero.
 Proof. ex3. veq. Qed.
 
-(** plane_to_triangle: PARTIAL, see C10_plane_to_triangle_partial *)
-Theorem C11_plane_to_triangle_partial (pp pn a b c : V3R) d c1 c2 arm :
-  dot pn pn = 1 -> plane_triangle_band_ok pp pn a b c ->
-  plane_to_triangle pp pn a b c = (d, c1, c2, arm) ->
+(** plane_to_triangle / plane_to_rectangle / plane_to_box = _plane_to_convex_hull_points on the vertex list (general
+    theorem [plane_to_points_optimal] for any non-empty list, Proofs/DistPlaneHull.v).  Since /repo e4c9460 the crossing arm
+    interpolates between the two extreme vertices, so the statements hold for ALL inputs with a unit normal (the former
+    1e-6 band hypothesis and its refutations are gone together with findings FD1/FD2). *)
+Theorem C11_plane_to_triangle (pp pn a b c : V3R) d c1 c2 arm :
+  dot pn pn = 1 -> plane_to_triangle pp pn a b c = (d, c1, c2, arm) ->
   optimal (plane_set pp pn) (triangle_set a b c) d.
-Proof. exact (plane_to_triangle_optimal_partial pp pn a b c d c1 c2 arm). Qed.
-Print Assumptions C11_plane_to_triangle_partial.
-Example C11_plane_to_triangle_partial_nonvacuous :
+Proof. exact (plane_to_triangle_optimal pp pn a b c d c1 c2 arm). Qed.
+Print Assumptions C11_plane_to_triangle.
+Example C11_plane_to_triangle_nonvacuous :
   let pp : V3R := V 0 0 0 in let pn : V3R := V 0 0 1 in
   let a : V3R := V 0 0 (-1) in let b : V3R := V 0 0 1 in let c : V3R := V 1 0 0 in
-  dot pn pn = 1 /\ plane_triangle_band_ok pp pn a b c /\
-  dot (vsub a pp) pn < 0 < dot (vsub b pp) pn /\
+  dot pn pn = 1 /\ dot (vsub a pp) pn < 0 < dot (vsub b pp) pn /\
   exists x, plane_to_triangle pp pn a b c = (0, x, x, 0%nat).
-Proof. exact plane_triangle_band_ok_nonvacuous. Qed.
+Proof. exact plane_to_triangle_nonvacuous. Qed.
 
-(** a triangle that CROSSES the plane at a shallow angle is reported at a positive distance *)
-Theorem C11_plane_to_triangle_refuted :
-  exists (pp pn a b c : V3R) (d : R) (c1 c2 : V3R) (arm : nat),
-    dot pn pn = 1 /\ plane_to_triangle pp pn a b c = (d, c1, c2, arm) /\
-    ~ optimal (plane_set pp pn) (triangle_set a b c) d.
-Proof. exact plane_to_triangle_optimal_refuted. Qed.
-Print Assumptions C11_plane_to_triangle_refuted.
-
-
-(** plane_to_rectangle / plane_to_box (the general [plane_to_points] theorem for any non-empty vertex list, instantiated):
-    PARTIAL in the same sense as plane_to_triangle: outside the hard-wired 1e-6 band ([points_band_ok]); inside it refuted *)
-Theorem C11_plane_to_rectangle_partial (pp pn c a0 a1 : V3R) (l0 l1 : R) d c1 c2 arm :
-  dot pn pn = 1 -> 0 <= l0 -> 0 <= l1 -> plane_rectangle_band_ok pp pn c a0 a1 l0 l1 ->
+Theorem C11_plane_to_rectangle (pp pn c a0 a1 : V3R) (l0 l1 : R) d c1 c2 arm :
+  dot pn pn = 1 -> 0 <= l0 -> 0 <= l1 ->
   plane_to_rectangle pp pn c a0 a1 l0 l1 = (d, c1, c2, arm) ->
   optimal (plane_set pp pn) (rectangle_set c a0 a1 l0 l1) d.
-Proof. exact (plane_to_rectangle_optimal_partial pp pn c a0 a1 l0 l1 d c1 c2 arm). Qed.
-Print Assumptions C11_plane_to_rectangle_partial.
-Example C11_plane_to_rectangle_partial_nonvacuous :
+Proof. exact (plane_to_rectangle_optimal pp pn c a0 a1 l0 l1 d c1 c2 arm). Qed.
+Print Assumptions C11_plane_to_rectangle.
+Example C11_plane_to_rectangle_nonvacuous :
   let pp : V3R := V 0 0 0 in let pn : V3R := V 0 0 1 in
   let c : V3R := V 0 0 3 in let a0 : V3R := V 1 0 0 in let a1 : V3R := V 0 1 0 in
-  dot pn pn = 1 /\ 0 <= 2 /\ plane_rectangle_band_ok pp pn c a0 a1 2 2 /\
-  exists c1 c2, plane_to_rectangle pp pn c a0 a1 2 2 = (3, c1, c2, 1%nat).
+  dot pn pn = 1 /\ 0 <= 2 /\ exists c1 c2, plane_to_rectangle pp pn c a0 a1 2 2 = (3, c1, c2, 1%nat).
 Proof. exact plane_to_rectangle_nonvacuous_above. Qed.
-Theorem C11_plane_to_rectangle_refuted :
-  exists pp pn c a0 a1 l0 l1 d c1 c2 arm,
-    dot pn pn = 1 /\ dot a0 a0 = 1 /\ dot a1 a1 = 1 /\ dot a0 a1 = 0 /\ 0 <= l0 /\ 0 <= l1 /\
-    plane_to_rectangle pp pn c a0 a1 l0 l1 = (d, c1, c2, arm) /\ ~ optimal (plane_set pp pn) (rectangle_set c a0 a1 l0 l1) d.
-Proof. exact plane_to_rectangle_optimal_refuted. Qed.
-Print Assumptions C11_plane_to_rectangle_refuted.
 
-Theorem C11_plane_to_box_partial (pp pn : V3R) (T : Pose R) (sz : V3R) d c1 c2 arm :
-  dot pn pn = 1 -> 0 <= vx sz -> 0 <= vy sz -> 0 <= vz sz -> plane_box_band_ok pp pn T sz ->
+Theorem C11_plane_to_box (pp pn : V3R) (T : Pose R) (sz : V3R) d c1 c2 arm :
+  dot pn pn = 1 -> 0 <= vx sz -> 0 <= vy sz -> 0 <= vz sz ->
   plane_to_box pp pn T sz = (d, c1, c2, arm) -> optimal (plane_set pp pn) (box_of T sz) d.
-Proof. exact (plane_to_box_optimal_partial pp pn T sz d c1 c2 arm). Qed.
-Print Assumptions C11_plane_to_box_partial.
-Example C11_plane_to_box_partial_nonvacuous :
+Proof. exact (plane_to_box_optimal pp pn T sz d c1 c2 arm). Qed.
+Print Assumptions C11_plane_to_box.
+Example C11_plane_to_box_nonvacuous :
   let pp : V3R := V 0 0 0 in let pn : V3R := V 0 0 1 in
   let T : Pose R := P ident (V 0 0 0) in let sz : V3R := V 2 2 2 in
   dot pn pn = 1 /\ is_rotation (rot T) /\ 0 <= vx sz /\ 0 <= vy sz /\ 0 <= vz sz /\
-  plane_box_band_ok pp pn T sz /\
   sd_min pp pn (box_vertices T sz) < 0 < sd_max pp pn (box_vertices T sz) /\
   exists x, plane_to_box pp pn T sz = (0, x, x, 0%nat) /\ plane_set pp pn x /\ box_of T sz x.
 Proof. exact plane_to_box_nonvacuous. Qed.
-Theorem C11_plane_to_box_refuted :
-  exists pp pn T sz d c1 c2 arm,
-    dot pn pn = 1 /\ is_rotation (rot T) /\ 0 < vx sz /\ 0 < vy sz /\ 0 < vz sz /\
-    plane_to_box pp pn T sz = (d, c1, c2, arm) /\ ~ optimal (plane_set pp pn) (box_of T sz) d.
-Proof. exact plane_to_box_optimal_refuted. Qed.
-Print Assumptions C11_plane_to_box_refuted.
+
+
+(** ** Combinators (Model/DistPrimComb.v): optimality.  Hypotheses beyond the documented preconditions are the epsilon
+    bands of the code's own tests, stated on the model's quantities: the parallel test |normal . direction| <= eps
+    (excluded unless exactly parallel), edges not shorter than sqrt(eps) (the degenerate-segment arms of
+    _line_to_line_segment), and for the rectangle functions the band 0 < d < eps of the RETURNED distance
+    (`if best_dist < epsilon: break` skips the remaining edges; inside it the statement is refuted below, the error is
+    bounded by eps).  No [d < max_float] is needed.  clamp_of_convex_line_min is the justification the code comments cite
+    for clamping the line parameter to the segment. *)
+Theorem C11_clamp_of_convex_line_min (f : R -> R) (ts L : R) :
+  (forall x y l, 0 <= l <= 1 -> f (l*x + (1-l)*y) <= l * f x + (1-l) * f y) ->
+  (forall t, f ts <= f t) -> 0 <= L -> forall t, 0 <= t <= L -> f (clampR ts 0 L) <= f t.
+Proof. exact (clamp_of_convex_line_min f ts L). Qed.
+Print Assumptions C11_clamp_of_convex_line_min.
+Theorem C11_line_to_triangle (lp ld a b c : V3R) (eps : R) d c1 c2 :
+  dot ld ld = 1 -> 0 < eps < 1 ->
+  cross (vsub b a) (vsub c a) <> vzero ->
+  eps <= dot (vsub b a) (vsub b a) -> eps <= dot (vsub c b) (vsub c b) -> eps <= dot (vsub a c) (vsub a c) ->
+  (let nrm := Support.norm_vector (cross (vsub b a) (vsub c a)) in dot nrm ld = 0 \/ eps < Rabs (dot nrm ld)) ->
+  line_to_triangle lp ld a b c eps = (d, c1, c2) ->
+  optimal (line_set lp ld) (triangle_set a b c) d.
+Proof. exact (line_to_triangle_optimal lp ld a b c eps d c1 c2). Qed.
+Print Assumptions C11_line_to_triangle.
+Example C11_line_to_triangle_nonvacuous :
+  exists lp ld a b c eps d c1 c2,
+    dot ld ld = 1 /\ 0 < eps < 1 /\ cross (vsub b a) (vsub c a) <> vzero /\
+    eps <= dot (vsub b a) (vsub b a) /\ eps <= dot (vsub c b) (vsub c b) /\ eps <= dot (vsub a c) (vsub a c) /\
+    (let nrm := Support.norm_vector (cross (vsub b a) (vsub c a)) in dot nrm ld = 0 \/ eps < Rabs (dot nrm ld)) /\
+    line_to_triangle lp ld a b c eps = (d, c1, c2) /\
+    optimal (line_set lp ld) (triangle_set a b c) d.
+Proof. exact line_to_triangle_optimal_nonvacuous. Qed.
+
+Theorem C11_line_segment_to_triangle (s e a b c : V3R) (eps : R) d c1 c2 :
+  s <> e -> 0 < eps < 1 ->
+  cross (vsub b a) (vsub c a) <> vzero ->
+  eps <= dot (vsub b a) (vsub b a) -> eps <= dot (vsub c b) (vsub c b) -> eps <= dot (vsub a c) (vsub a c) ->
+  (let sd := fst (convert_segment_to_line s e) in
+   let nrm := Support.norm_vector (cross (vsub b a) (vsub c a)) in dot nrm sd = 0 \/ eps < Rabs (dot nrm sd)) ->
+  line_segment_to_triangle s e a b c eps = (d, c1, c2) ->
+  optimal (segment_set s e) (triangle_set a b c) d.
+Proof. exact (line_segment_to_triangle_optimal s e a b c eps d c1 c2). Qed.
+Print Assumptions C11_line_segment_to_triangle.
+Example C11_line_segment_to_triangle_nonvacuous :
+  exists s e a b c eps d c1 c2,
+    s <> e /\ 0 < eps < 1 /\ cross (vsub b a) (vsub c a) <> vzero /\
+    eps <= dot (vsub b a) (vsub b a) /\ eps <= dot (vsub c b) (vsub c b) /\ eps <= dot (vsub a c) (vsub a c) /\
+    (let sd := fst (convert_segment_to_line s e) in
+     let nrm := Support.norm_vector (cross (vsub b a) (vsub c a)) in dot nrm sd = 0 \/ eps < Rabs (dot nrm sd)) /\
+    line_segment_to_triangle s e a b c eps = (d, c1, c2) /\
+    optimal (segment_set s e) (triangle_set a b c) d.
+Proof. exact line_segment_to_triangle_optimal_nonvacuous. Qed.
+
+Theorem C11_line_to_rectangle (lp ld c a0 a1 : V3R) (l0 l1 eps : R) d c1 c2 :
+  dot ld ld = 1 -> 0 < eps < 1 ->
+  dot a0 a0 = 1 -> dot a1 a1 = 1 -> dot a0 a1 = 0 ->
+  0 <= l0 -> 0 <= l1 -> eps <= l0 * l0 -> eps <= l1 * l1 ->
+  (dot (cross a0 a1) ld = 0 \/ eps < Rabs (dot (cross a0 a1) ld)) ->
+  line_to_rectangle lp ld c a0 a1 l0 l1 eps = (d, c1, c2) ->
+  d = 0 \/ eps <= d ->
+  optimal (line_set lp ld) (rectangle_set c a0 a1 l0 l1) d.
+Proof. exact (line_to_rectangle_optimal lp ld c a0 a1 l0 l1 eps d c1 c2). Qed.
+Print Assumptions C11_line_to_rectangle.
+Example C11_line_to_rectangle_nonvacuous :
+  exists lp ld c a0 a1 l0 l1 eps d c1 c2,
+    dot ld ld = 1 /\ 0 < eps < 1 /\ dot a0 a0 = 1 /\ dot a1 a1 = 1 /\ dot a0 a1 = 0 /\
+    0 <= l0 /\ 0 <= l1 /\ eps <= l0 * l0 /\ eps <= l1 * l1 /\
+    (dot (cross a0 a1) ld = 0 \/ eps < Rabs (dot (cross a0 a1) ld)) /\
+    line_to_rectangle lp ld c a0 a1 l0 l1 eps = (d, c1, c2) /\ (d = 0 \/ eps <= d) /\
+    optimal (line_set lp ld) (rectangle_set c a0 a1 l0 l1) d.
+Proof. exact line_to_rectangle_optimal_nonvacuous. Qed.
+Theorem C11_line_to_rectangle_break_band_refuted :
+  exists lp ld c a0 a1 l0 l1 eps d c1 c2,
+    dot ld ld = 1 /\ 0 < eps < 1 /\ dot a0 a0 = 1 /\ dot a1 a1 = 1 /\ dot a0 a1 = 0 /\
+    0 <= l0 /\ 0 <= l1 /\ eps <= l0 * l0 /\ eps <= l1 * l1 /\
+    (dot (cross a0 a1) ld = 0 \/ eps < Rabs (dot (cross a0 a1) ld)) /\
+    line_to_rectangle lp ld c a0 a1 l0 l1 eps = (d, c1, c2) /\
+    ~ optimal (line_set lp ld) (rectangle_set c a0 a1 l0 l1) d.
+Proof. exact line_to_rectangle_optimal_refuted. Qed.
+Print Assumptions C11_line_to_rectangle_break_band_refuted.
+
+Theorem C11_line_segment_to_rectangle (s e c a0 a1 : V3R) (l0 l1 eps : R) d c1 c2 :
+  s <> e -> 0 < eps < 1 ->
+  dot a0 a0 = 1 -> dot a1 a1 = 1 -> dot a0 a1 = 0 ->
+  0 <= l0 -> 0 <= l1 -> eps <= l0 * l0 -> eps <= l1 * l1 ->
+  (let sd := fst (convert_segment_to_line s e) in
+   dot (cross a0 a1) sd = 0 \/ eps < Rabs (dot (cross a0 a1) sd)) ->
+  line_segment_to_rectangle s e c a0 a1 l0 l1 eps = (d, c1, c2) ->
+  d = 0 \/ eps <= d ->
+  optimal (segment_set s e) (rectangle_set c a0 a1 l0 l1) d.
+Proof. exact (line_segment_to_rectangle_optimal s e c a0 a1 l0 l1 eps d c1 c2). Qed.
+Print Assumptions C11_line_segment_to_rectangle.
+Example C11_line_segment_to_rectangle_nonvacuous :
+  exists s e c a0 a1 l0 l1 eps d c1 c2,
+    s <> e /\ 0 < eps < 1 /\ dot a0 a0 = 1 /\ dot a1 a1 = 1 /\ dot a0 a1 = 0 /\
+    0 <= l0 /\ 0 <= l1 /\ eps <= l0 * l0 /\ eps <= l1 * l1 /\
+    (let sd := fst (convert_segment_to_line s e) in
+     dot (cross a0 a1) sd = 0 \/ eps < Rabs (dot (cross a0 a1) sd)) /\
+    line_segment_to_rectangle s e c a0 a1 l0 l1 eps = (d, c1, c2) /\ (d = 0 \/ eps <= d) /\
+    optimal (segment_set s e) (rectangle_set c a0 a1 l0 l1) d.
+Proof. exact line_segment_to_rectangle_optimal_nonvacuous. Qed.
+Theorem C11_line_segment_to_rectangle_break_band_refuted :
+  exists s e c a0 a1 l0 l1 eps d c1 c2,
+    s <> e /\ 0 < eps < 1 /\ dot a0 a0 = 1 /\ dot a1 a1 = 1 /\ dot a0 a1 = 0 /\
+    0 <= l0 /\ 0 <= l1 /\ eps <= l0 * l0 /\ eps <= l1 * l1 /\
+    (let sd := fst (convert_segment_to_line s e) in
+     dot (cross a0 a1) sd = 0 \/ eps < Rabs (dot (cross a0 a1) sd)) /\
+    line_segment_to_rectangle s e c a0 a1 l0 l1 eps = (d, c1, c2) /\
+    ~ optimal (segment_set s e) (rectangle_set c a0 a1 l0 l1) d.
+Proof. exact line_segment_to_rectangle_optimal_refuted. Qed.
+Print Assumptions C11_line_segment_to_rectangle_break_band_refuted.
+
+Theorem C11_triangle_to_triangle (a1 b1 c1 a2 b2 c2 : V3R) (eps : R) d p1 p2 :
+  cross (vsub b1 a1) (vsub c1 a1) <> vzero -> cross (vsub b2 a2) (vsub c2 a2) <> vzero -> 0 < eps < 1 ->
+  eps <= dot (vsub b1 a1) (vsub b1 a1) -> eps <= dot (vsub c1 b1) (vsub c1 b1) -> eps <= dot (vsub a1 c1) (vsub a1 c1) ->
+  eps <= dot (vsub b2 a2) (vsub b2 a2) -> eps <= dot (vsub c2 b2) (vsub c2 b2) -> eps <= dot (vsub a2 c2) (vsub a2 c2) ->
+  (forall se, In se (tri_edges a1 b1 c1) -> edge_band (Support.norm_vector (cross (vsub b2 a2) (vsub c2 a2))) eps se) ->
+  (forall se, In se (tri_edges a2 b2 c2) -> edge_band (Support.norm_vector (cross (vsub b1 a1) (vsub c1 a1))) eps se) ->
+  triangle_to_triangle a1 b1 c1 a2 b2 c2 eps = (d, p1, p2) ->
+  optimal (triangle_set a1 b1 c1) (triangle_set a2 b2 c2) d.
+Proof. exact (triangle_to_triangle_optimal a1 b1 c1 a2 b2 c2 eps d p1 p2). Qed.
+Print Assumptions C11_triangle_to_triangle.
+Example C11_triangle_to_triangle_nonvacuous :
+  exists a1 b1 c1 a2 b2 c2 eps d p1 p2,
+    cross (vsub b1 a1) (vsub c1 a1) <> vzero /\ cross (vsub b2 a2) (vsub c2 a2) <> vzero /\ 0 < eps < 1 /\
+    eps <= dot (vsub b1 a1) (vsub b1 a1) /\ eps <= dot (vsub c1 b1) (vsub c1 b1) /\ eps <= dot (vsub a1 c1) (vsub a1 c1) /\
+    eps <= dot (vsub b2 a2) (vsub b2 a2) /\ eps <= dot (vsub c2 b2) (vsub c2 b2) /\ eps <= dot (vsub a2 c2) (vsub a2 c2) /\
+    (forall se, In se (tri_edges a1 b1 c1) -> edge_band (Support.norm_vector (cross (vsub b2 a2) (vsub c2 a2))) eps se) /\
+    (forall se, In se (tri_edges a2 b2 c2) -> edge_band (Support.norm_vector (cross (vsub b1 a1) (vsub c1 a1))) eps se) /\
+    triangle_to_triangle a1 b1 c1 a2 b2 c2 eps = (d, p1, p2) /\
+    optimal (triangle_set a1 b1 c1) (triangle_set a2 b2 c2) d.
+Proof. exact triangle_to_triangle_optimal_nonvacuous. Qed.
+
+Theorem C11_triangle_to_rectangle (a b c rc a0 a1 : V3R) (l0 l1 : R) d p1 p2 :
+  cross (vsub b a) (vsub c a) <> vzero ->
+  eps6 <= dot (vsub b a) (vsub b a) -> eps6 <= dot (vsub c b) (vsub c b) -> eps6 <= dot (vsub a c) (vsub a c) ->
+  dot a0 a0 = 1 -> dot a1 a1 = 1 -> dot a0 a1 = 0 ->
+  0 <= l0 -> 0 <= l1 -> eps6 <= l0 * l0 -> eps6 <= l1 * l1 ->
+  (forall se, In se (tri_edges a b c) -> edge_band (cross a0 a1) eps6 se) ->
+  (let nrm := Support.norm_vector (cross (vsub b a) (vsub c a)) in
+   (dot nrm a0 = 0 \/ eps6 < Rabs (dot nrm a0)) /\ (dot nrm a1 = 0 \/ eps6 < Rabs (dot nrm a1))) ->
+  triangle_to_rectangle a b c rc a0 a1 l0 l1 = (d, p1, p2) ->
+  d = 0 \/ eps6 <= d ->
+  optimal (triangle_set a b c) (rectangle_set rc a0 a1 l0 l1) d.
+Proof. exact (triangle_to_rectangle_optimal a b c rc a0 a1 l0 l1 d p1 p2). Qed.
+Print Assumptions C11_triangle_to_rectangle.
+Example C11_triangle_to_rectangle_nonvacuous :
+  exists a b c rc a0 a1 l0 l1 d p1 p2,
+    cross (vsub b a) (vsub c a) <> vzero /\
+    eps6 <= dot (vsub b a) (vsub b a) /\ eps6 <= dot (vsub c b) (vsub c b) /\ eps6 <= dot (vsub a c) (vsub a c) /\
+    dot a0 a0 = 1 /\ dot a1 a1 = 1 /\ dot a0 a1 = 0 /\
+    0 <= l0 /\ 0 <= l1 /\ eps6 <= l0 * l0 /\ eps6 <= l1 * l1 /\
+    (forall se, In se (tri_edges a b c) -> edge_band (cross a0 a1) eps6 se) /\
+    (let nrm := Support.norm_vector (cross (vsub b a) (vsub c a)) in
+     (dot nrm a0 = 0 \/ eps6 < Rabs (dot nrm a0)) /\ (dot nrm a1 = 0 \/ eps6 < Rabs (dot nrm a1))) /\
+    triangle_to_rectangle a b c rc a0 a1 l0 l1 = (d, p1, p2) /\ (d = 0 \/ eps6 <= d) /\
+    optimal (triangle_set a b c) (rectangle_set rc a0 a1 l0 l1) d.
+Proof. exact triangle_to_rectangle_optimal_nonvacuous. Qed.
+
+Theorem C11_rectangle_to_rectangle (c1 a10 a11 : V3R) (l10 l11 : R) (c2 a20 a21 : V3R) (l20 l21 eps : R) d p1 p2 :
+  dot a10 a10 = 1 -> dot a11 a11 = 1 -> dot a10 a11 = 0 ->
+  dot a20 a20 = 1 -> dot a21 a21 = 1 -> dot a20 a21 = 0 ->
+  0 <= l10 -> 0 <= l11 -> 0 <= l20 -> 0 <= l21 ->
+  eps6 <= l10 * l10 -> eps6 <= l11 * l11 -> eps6 <= l20 * l20 -> eps6 <= l21 * l21 ->
+  (let n2 := cross a20 a21 in
+   (dot n2 a10 = 0 \/ eps6 < Rabs (dot n2 a10)) /\ (dot n2 a11 = 0 \/ eps6 < Rabs (dot n2 a11))) ->
+  (let n1 := cross a10 a11 in
+   (dot n1 a20 = 0 \/ eps6 < Rabs (dot n1 a20)) /\ (dot n1 a21 = 0 \/ eps6 < Rabs (dot n1 a21))) ->
+  rectangle_to_rectangle c1 a10 a11 l10 l11 c2 a20 a21 l20 l21 eps = (d, p1, p2) ->
+  d = 0 \/ (eps < d /\ eps6 <= d) ->
+  optimal (rectangle_set c1 a10 a11 l10 l11) (rectangle_set c2 a20 a21 l20 l21) d.
+Proof. exact (rectangle_to_rectangle_optimal c1 a10 a11 l10 l11 c2 a20 a21 l20 l21 eps d p1 p2). Qed.
+Print Assumptions C11_rectangle_to_rectangle.
+Example C11_rectangle_to_rectangle_nonvacuous :
+  exists c1 a10 a11 l10 l11 c2 a20 a21 l20 l21 eps d p1 p2,
+    dot a10 a10 = 1 /\ dot a11 a11 = 1 /\ dot a10 a11 = 0 /\
+    dot a20 a20 = 1 /\ dot a21 a21 = 1 /\ dot a20 a21 = 0 /\
+    0 <= l10 /\ 0 <= l11 /\ 0 <= l20 /\ 0 <= l21 /\
+    eps6 <= l10 * l10 /\ eps6 <= l11 * l11 /\ eps6 <= l20 * l20 /\ eps6 <= l21 * l21 /\
+    (let n2 := cross a20 a21 in
+     (dot n2 a10 = 0 \/ eps6 < Rabs (dot n2 a10)) /\ (dot n2 a11 = 0 \/ eps6 < Rabs (dot n2 a11))) /\
+    (let n1 := cross a10 a11 in
+     (dot n1 a20 = 0 \/ eps6 < Rabs (dot n1 a20)) /\ (dot n1 a21 = 0 \/ eps6 < Rabs (dot n1 a21))) /\
+    rectangle_to_rectangle c1 a10 a11 l10 l11 c2 a20 a21 l20 l21 eps = (d, p1, p2) /\
+    (d = 0 \/ (eps < d /\ eps6 <= d)) /\
+    optimal (rectangle_set c1 a10 a11 l10 l11) (rectangle_set c2 a20 a21 l20 l21) d.
+Proof. exact rectangle_to_rectangle_optimal_nonvacuous. Qed.
+
